@@ -95,6 +95,8 @@ def direct_counts(prop6, want6, prop7, want7, tier):
            ('C06 2op', count(want6, lambda k: k[1] == '2op'), nonpush * nonpush * (8 if big else 3)),
            ('C06 numgrid2', count(want6, lambda k: k[1] == 'numgrid2'), 12 * 12 * 13),
            ('C06 numgrid3', count(want6, lambda k: k[1] == 'numgrid3'), 12 * 12 * 5),
+           ('C07 grid-1op (C06 grid through fam())', count(want7, lambda k: k[1] == 'grid-1op'),
+            len(prop7.grid_1op()) * (16 if big else 2)),
            ('C07 p2pk-grid', count(want7, lambda k: k[1] == 'p2pk-grid'), 3 * 8 * 16 * 2),
            ('C07 opnd str 1..3 x contexts', count(want7, lambda k: (k[1] or '').startswith('opnd-sig-str') and
                                                    len((k[1] or '').split('-')[2]) <= 9), (8 + 64 + 512) * (12 + 3)),
